@@ -8,7 +8,7 @@ Open Scope Z_scope.
 Lemma flight_facts : forall g t th p n c cur, Inv g -> nth_error (threads g) t = Some th ->
   t_pc th = FWalk p n c cur ->
   exists hp, get_hook g p = Some hp /\ h_mu hp = Some t /\ h_refs hp = 0 /\ tokens g p = n /\
-             0 < n /\ forwarded p hp = true /\ reach g p cur /\ borrow_ok g c (Some cur).
+             0 < n /\ forwarded p hp = true /\ path1 g p cur /\ borrow_ok g c (Some cur).
 Proof. intros. apply (inv_flight g (invF g H)). exists th; auto. Qed.
 
 Lemma step_FWalk_hop : forall g t th p n c cur hk r g',
@@ -49,7 +49,7 @@ Proof.
     + intros ci rh Hb B. eapply borrow_ok_frame; eauto.
     + intros p0 n0 c0 cur0 E. inversion E; subst p0 n0 c0 cur0. clear E.
       exists hp. repeat split; auto.
-      * eapply reach_mono; [exact L|]. eapply reach_right; eauto.
+      * eapply path1_mono; [exact L|]. eapply path1_right; eauto.
       * eapply (borrow_ok_frame g g'); [exact L| |].
         { intros ci cl _ B. exists cl. auto. }
         destruct c as [ci|]; [|simpl in A8; discriminate].
@@ -194,6 +194,7 @@ Proof.
   intros g t th p n c cur hk g' I Hth Hpc Hx Hf Hr Hs Hm. unfold step in Hs. rewrite Hth, Hpc, Hx in Hs.
   destruct (h_mu hk) eqn:Hmu; [discriminate|]. rewrite Hf, Hr in Hs. inversion Hs; subst g'; clear Hs.
   destruct (flight_facts g t th p n c cur I Hth Hpc) as (hp & A1 & A2 & A3 & A4 & A5 & A6 & A7 & A8).
+  apply path1_reach in A7.
   eapply (fwalk_finish g _ t th p n c cur hk hk hp None I Hth Hpc Hx Hmu A1 A2 A3 A4 A5 A6).
   - reflexivity.
   - cbn. unfold get_hook in Hx, A1. rewrite (upd_id _ _ _ _ Hx). rewrite (upd_const _ _ _ _ _ A1). reflexivity.
@@ -214,6 +215,7 @@ Proof.
   intros g t th p n c cur hk g' I Hth Hpc Hx Hf Hs Hm. unfold step in Hs. rewrite Hth, Hpc, Hx in Hs.
   destruct (h_mu hk) eqn:Hmu; [discriminate|]. rewrite Hf in Hs. inversion Hs; subst g'; clear Hs.
   destruct (flight_facts g t th p n c cur I Hth Hpc) as (hp & A1 & A2 & A3 & A4 & A5 & A6 & A7 & A8).
+  apply path1_reach in A7.
   assert (Hne : cur <> p) by (intros ->; congruence).
   (* the borrowed client keeps the target alive *)
   assert (R1 : 1 <= h_refs hk).
@@ -348,6 +350,9 @@ Lemma step_FMark_unresolved : forall g t th p rh c hk g',
 Proof.
   intros g t th p rh c hk g' I Hth Hpc Hp Hres Hs Hm. unfold step in Hs. rewrite Hth, Hpc, Hp in Hs.
   destruct (h_mu hk) eqn:Hmu; [discriminate|]. rewrite Hres in Hs.
+  destruct (resolves_to_cycle g rh p) eqn:Ecyc.
+  { exfalso. inversion Hs; subst g'. rewrite fmark_body_misuse in Hm. discriminate. reflexivity. }
+  unfold fmark_body in Hs. cbv zeta in Hs.
   pose proof (fm_acct g p hk I Hp Hmu) as Hacct.
   assert (Htok0 : 0 <= tokens g p) by (apply sumf_nonneg; apply wtok_nonneg).
   destruct (inv_hook g (invH g I) p hk Hp) as [O1 O2 O3 O4 O5 O6 O7].
@@ -356,7 +361,7 @@ Proof.
   assert (NC : forall k c0 cur, t_pc th <> CWalk k c0 cur) by (intros; rewrite Hpc; discriminate).
   destruct (h_refs hk =? 0) eqn:En.
   - (* no references left: nothing to transfer, nothing to shut down *)
-    inversion Hs; subst g'; clear Hs.
+    cbv iota in Hs. inversion Hs; subst g'; clear Hs.
     set (g' := finish t ROk (uh p (fun _ => hk1) g)) in *.
     set (F := fun th0 : thread => mkThread (t_prog th0) Idle (ROk :: t_res th0)).
     assert (Ht : threads g' = upd t F (threads g)) by reflexivity.
@@ -384,7 +389,7 @@ Proof.
     assert (Hcl2 : (if h_calls hk1 =? 0 then close_done hk1 else Some hk1) = Some hk2).
     { unfold hk2, close_done. cbn [h_calls h_done hk1 hk_refs hk_resolve]. rewrite Hd.
       destruct (h_calls hk =? 0); reflexivity. }
-    rewrite Hcl2 in Hs.
+    cbv iota in Hs. rewrite Hcl2 in Hs. cbv iota in Hs.
     assert (D2 : h_done hk2 = (h_calls hk =? 0)).
     { unfold hk2. destruct (h_calls hk =? 0); cbn; auto. }
     assert (R2 : h_refs hk2 = 0) by (unfold hk2; destruct (h_calls hk =? 0); reflexivity).
@@ -396,9 +401,9 @@ Proof.
     clearbody hk2.
     destruct rh as [r|].
     + destruct (Nat.eqb r p) eqn:Erp.
-      { inversion Hs; subst g'. cbn in Hm. discriminate. }
+      { cbv iota in Hs. inversion Hs; subst g'. cbn in Hm. discriminate. }
       apply Nat.eqb_neq in Erp.
-      inversion Hs; subst g'; clear Hs.
+      cbv iota in Hs. inversion Hs; subst g'; clear Hs.
       set (hk3 := hk_mu (Some t) hk2) in *.
       set (g' := set_pc t (FWalk p (h_refs hk) c r) (uh p (fun _ => hk3) g)) in *.
       set (F := fun th0 : thread => mkThread (t_prog th0) (FWalk p (h_refs hk) c r) (t_res th0)).
@@ -426,11 +431,11 @@ Proof.
            exists hk3. split. apply (fm_ghp g g' p hk hk3 Hp Hh).
            split. reflexivity. split. exact R2. split. symmetry; exact Hacct. split. exact Hn.
            split. exact Hfw3. split.
-           { eapply reach_left; [|constructor]. exists hk3. split. apply (fm_ghp g g' p hk hk3 Hp Hh). auto. }
+           { exists r. split; [|constructor]. exists hk3. split. apply (fm_ghp g g' p hk hk3 Hp Hh). auto. }
            eapply (borrow_ok_frame g g'); [exact L | intros ci0 cl _ A; exists cl; auto | exact Hbor].
         -- intros p0 rh0 c0 E. discriminate.
     + (* resolved to nil: the references are dropped *)
-      inversion Hs; subst g'; clear Hs.
+      cbv iota in Hs. inversion Hs; subst g'; clear Hs.
       set (g' := set_pc t (WaitDone p) (retarget p None (uh p (fun _ => hk2) g))) in *.
       set (F := fun th0 : thread => mkThread (t_prog th0) (WaitDone p) (t_res th0)).
       assert (Ht : threads g' = upd t F (threads g)) by reflexivity.
